@@ -90,8 +90,32 @@ def lattice(lticks, maxlimit, noise=0.0, sub=(0.5e-6,)):
     return out
 
 
-def reactor_trace(r, label):
-    """Trace of a fully constructed Reactor."""
+def truth_boundaries(case):
+    """Axial boundaries stated by the input of a case (SI): core ends, region
+    bounds of every assembly type, power-mesh bounds of every assembly,
+    requested planes."""
+    out = [0.0, float(case['L'])]
+    for t in case['types'].values():
+        for reg in t.get('AxialRegion', {}).values():
+            out += [float(reg['z_lo']), float(reg['z_hi'])]
+        out += [float(x) for x in t.get('_rods', [])]
+    for p in case.get('power', {}).values():
+        out += [float(x) for x in p['z']]
+    for pw in case.get('powers', []):
+        for p in pw.values():
+            out += [float(x) for x in p['z']]
+    ap = case.get('setup', {}).get('axial_plane')
+    if ap is not None:
+        out += [float(x) for x in (ap if isinstance(ap, (list, tuple))
+                                   else [ap])]
+    return sorted(set(out))
+
+
+def reactor_trace(r, label, truth=None, user=-1):
+    """Trace of a fully constructed Reactor.  truth: the boundaries stated
+    by the input (one the solver's merged list does not contain, to within
+    its 1e-12 rounding, is added: it must still be a plane); user: the
+    requested step of the input (-1: take the solver's option)."""
     # the requirement of every assembly evaluated afresh on that assembly
     # (the reactor's own record is not trusted to be per assembly); the gap
     # entry is the reactor's
@@ -104,10 +128,14 @@ def reactor_trace(r, label):
             lims.append(float(mod.calculate_min_dz(
                 reg, r.inlet_temp, a._estimated_T_out, r._is_adiabatic)[0]))
     lims += [float(x) for x in r.min_dz['dz'][len(r.assemblies):]]
-    cfg = {'B': [L(b) for b in r.axial_bnds],
+    B = [float(b) for b in r.axial_bnds]
+    for t in (truth or []):
+        if min(abs(b - t) for b in B) > 1.5e-12:
+            B.append(float(t))
+    usr = r._options['axial_mesh_size'] if user == -1 else user
+    cfg = {'B': [L(b) for b in sorted(B)],
            'limit': L(min(lims)),
-           'user': L(r._options['axial_mesh_size'])
-           if r._options['axial_mesh_size'] else [0, 0],
+           'user': L(usr) if usr else [0, 0],
            'cap': L(0.01)}
     ev = [{'e': 'Select', 'step': L(r.req_dz)}]
     for x in r.z[1:]:
